@@ -72,6 +72,10 @@ def run_case(case, ctx):
     if rng.random() < 0.3:
         opts.update(pos_offset=float(rng.choice([2e4, 5e4])), dtype_pos='float32', ties=False)   # large absolute float32 coordinates
     opts['probes'] = bool(rng.random() < 0.3)       # a probe table must not influence the channel choice (shank only)
+    if sparse:
+        opts['mid_pad'] = 0.4
+    else:
+        opts['flat_template'] = bool(rng.random() < 0.25)       # a template without any signal (all zero / all NaN in the file)
     spec = random_spec(rng, **opts)
     thr_default = [None, None, 0.5, 0.3][int(rng.integers(0, 4))]
     if thr_default is not None:
@@ -122,7 +126,11 @@ def _dense(m, spec, desc, ctx, rng):
                     kw = {'unwhiten': unw}
                     if thr is not None:
                         kw['amplitude_threshold'] = thr
-                    r = call(m.get_template, as_id(t, t + len(kw)), **kw)
+                    if (t + ncl + len(kw)) % 3 == 0:
+                        # the documented positional order: (template_id, channel_ids, amplitude_threshold, unwhiten)
+                        r = call(m.get_template, as_id(t, t + len(kw)), None, thr, unw)
+                    else:
+                        r = call(m.get_template, as_id(t, t + len(kw)), **kw)
                     if not r.ok:
                         ctx.violation('raised', dict(desc, request=req), 'get_template raised %r' % r.exc,
                                       dict(base, exc=r.exc_name), tb=r.tb)
@@ -130,6 +138,9 @@ def _dense(m, spec, desc, ctx, rng):
                     rec = r.value
                     probs = rt.check_record(rec, U)
                     got = set(int(c) for c in np.asarray(rec.channel_ids).tolist())
+                    if int(rec.best_channel) != best and 0 <= int(rec.best_channel) < nc:
+                        # exactly tied peaks (a template without signal): judge against the peak that was chosen
+                        best, req_set, allowed = rt.dense_channel_sets(spec, U, thr_eff, ncl, best=int(rec.best_channel))
                     if int(rec.best_channel) != best:
                         probs.append(('wrong_peak', 'best_channel %r, reference %d' % (rec.best_channel, best)))
                     if not (req_set <= got <= allowed):
@@ -150,7 +161,10 @@ def _dense(m, spec, desc, ctx, rng):
             base = {'storage': 'dense', 'explicit': True, 'as_list': as_list}
             ctx.count(1, key=hkey(tuple(desc['seed']), t, 'explicit', q), nontrivial=True,
                       cell=('dense', 'explicit', 'list' if as_list else 'array'))
-            r = call(m.get_template, as_id(t, t + len(lst)), channel_ids=lst.tolist() if as_list else lst, unwhiten=unw)
+            if q == 0:
+                r = call(m.get_template, as_id(t, t + len(lst)), lst.tolist() if as_list else lst, None, unw)      # positional
+            else:
+                r = call(m.get_template, as_id(t, t + len(lst)), channel_ids=lst.tolist() if as_list else lst, unwhiten=unw)
             if not r.ok:
                 ctx.violation('raised', dict(desc, request=req), 'get_template(explicit) raised %r' % r.exc,
                               dict(base, exc=r.exc_name), tb=r.tb)
